@@ -245,6 +245,25 @@ let () =
     | ["RUN"; fuel; script; cache] ->
       let o = run_script orc !cfg (nat_of_int (int_of_string fuel)) (bytes_of_hex script) (parse_cache cache) in
       print_string ("= " ^ outcome_str o ^ "\n")
+    | ["AMHL"; n; seed] ->
+      let hx = hex_of_bytes in
+      let ob = function Some true -> "T" | Some false -> "F" | None -> "none" in
+      let vw = function
+        | Some (VFirst y) -> "first:" ^ hx y
+        | Some (VMid (a, b, c)) -> "mid:" ^ hx a ^ ":" ^ hx b ^ ":" ^ hx c
+        | Some (VLast (a, k)) -> "last:" ^ hx a ^ ":" ^ hx k
+        | None -> "none" in
+      (match amhl_all orc (nat_of_int (int_of_string n)) (bytes_of_hex seed) with
+       | Some ((ys, ypts), views) ->
+         print_string ("= ok " ^ String.concat "," (List.map hx ys) ^ " " ^ String.concat "," (List.map hx ypts) ^ " " ^
+                       String.concat "," (List.map (fun (v, c) -> vw v ^ "=" ^ ob c) views) ^ "\n")
+       | None -> print_string "= none\n")
+    | ["AMHLREL"; w; sg; y] ->
+      (match amhl_release_left orc (bytes_of_hex w) (bytes_of_hex sg) (bytes_of_hex y) with
+       | Some k -> print_string ("= ok " ^ hex_of_bytes k ^ "\n") | None -> print_string "= none\n")
+    | ["AMHLKEY"; l; k] ->
+      (match amhl_verify_lock_key orc (bytes_of_hex l) (bytes_of_hex k) with
+       | Some b -> print_string ("= ok " ^ (if b then "T" else "F") ^ "\n") | None -> print_string "= none\n")
     | ["MT"; packed; path] ->
       let h b = (match orc PSha256 [b] with OOk [x] -> x | _ -> failwith "sha256 oracle") in
       let p = List.filter_map (fun c -> match c with 'L' -> Some L | 'R' -> Some R | _ -> None) (List.of_seq (String.to_seq path)) in
@@ -338,6 +357,11 @@ let () =
         | "graftroot_lock" -> graftroot_lock (a 0) (b1 1)
         | "taproot_lock" -> taproot_lock (a 0) (b1 1)
         | "nonnative_taproot_lock" -> nonnative_taproot_lock (a 0) (b1 1)
+        | "delegate_key_chain_lock" -> delegate_key_chain_lock (a 0) (b1 1)
+        | "delegate_key_chain_witness" ->
+          (match List.map bytes_of_hex args with
+           | sg :: c0 :: cs -> delegate_key_chain_witness sg c0 cs
+           | _ -> failwith "chain witness args")
         | "merkle_lock" -> merkle_lock (a 0)
         | "adapter_check_lock" -> adapter_check_lock (b1 0) (a 1) (a 2)
         | "adapter_decrypt" -> adapter_decrypt (a 0)
